@@ -435,6 +435,43 @@ class T(Entity):
             k.next = (j & 3) | (j ^ 5)
             self.y <<= k
 ''',
+    "always-result-bits-and-slices": HDR + '''
+class T(Entity):
+    clk = Port.input(Bit)
+    a = Port.input(Unsigned[8])
+    b = Port.input(Unsigned[8])
+    m = Port.input(BitVector[8])
+    full = Port.output(Unsigned[8])
+    low = Port.output(Unsigned[4])
+    msb = Port.output(Bit)
+    inc = Port.output(Unsigned[4])
+    par = Port.output(Bit)
+    def architecture(self):
+        @std.sequential(std.Clock(self.clk))
+        def proc():
+            total = cohdl.always(self.a + self.b)
+            self.full <<= total
+            self.low <<= total[3:0].unsigned
+            self.msb <<= total[7]
+            self.inc <<= cohdl.always((self.a - self.b)[7:4].unsigned + 1)
+            masked = cohdl.always(self.m & self.a.bitvector)
+            if masked[0] ^ masked[7]:
+                self.par <<= masked[3]
+''',
+    "always-result-slice-as-bitvector": HDR + '''
+class T(Entity):
+    clk = Port.input(Bit)
+    a = Port.input(Unsigned[4])
+    b = Port.input(Unsigned[4])
+    mid = Port.output(BitVector[2])
+    top = Port.output(Bit)
+    def architecture(self):
+        @std.sequential(std.Clock(self.clk))
+        def proc():
+            total = cohdl.always(self.a + self.b)
+            self.mid <<= total[2:1]
+            self.top <<= total[3] | total[0]
+''',
     "entity-named-like-reserved-word": HDR + '''
 class Buffer(Entity):
     a = Port.input(Bit)
